@@ -769,7 +769,7 @@ func checkC19(c *Ctx) {
 		seeds = 120
 	}
 	c.Level = "fault_enumeration"
-	c.Rule = "per seed: one fault-free baseline of the complete conversation (test mode: 2..4 UEs through all five procedures; every 3rd seed traffic mode), then one run per (downlink message index k) x {close_before, abort_before, garbage:choice, garbage:prefix, garbage:empty-container, garbage:strict prefix at drawn cut points (thorough: every cut point for one seed in eight), garbage:inner NAS-PDU length running out of its IE, garbage:undecodable bytes filling the 2048-octet receive buffer exactly / twice / off by one}, plus dial_fail and write_err at uplink indices, plus fault sequences (garbage in the exempt CONFIGURATION UPDATE COMMAND, tolerated, followed by a fault at a later message); every 4th seed runs against a slow core so that faults land in the emulator's fixed sleeps; evaluation = one faulted run; distinct = distinct (fault kind, message label at which it was observed, how the process ended); non-trivial = the fault was observed by the emulator"
+	c.Rule = "per seed: one fault-free baseline of the complete conversation (test mode: 2..4 UEs through all five procedures; every 3rd seed traffic mode), then one run per (downlink message index k) x {close_before, abort_before, garbage:choice, garbage:prefix, garbage:empty-container, garbage:strict prefix at drawn cut points (thorough: every cut point for one seed in eight), garbage:message value of 0, 1 or 2 octets (no room for the IE count), garbage:inner NAS-PDU length running out of its IE, garbage:undecodable bytes filling the 2048-octet receive buffer exactly / twice / off by one}, plus dial_fail and write_err at uplink indices, plus fault sequences (garbage in the exempt CONFIGURATION UPDATE COMMAND, tolerated, followed by a fault at a later message); every 4th seed runs against a slow core so that faults land in the emulator's fixed sleeps; evaluation = one faulted run; distinct = distinct (fault kind, message label at which it was observed, how the process ended); non-trivial = the fault was observed by the emulator"
 	c.Assume = append(c.Assume, assumptionsWS...)
 	c.Assume = append(c.Assume, "garbage is restricted to octet strings every X.691 decoder must refuse (invalid CHOICE index, length exceeding the data); the message after REGISTRATION COMPLETE is exempt as the statement says; a fault in a message the emulator never reads is not judged")
 	root := kernel.New(c.Seed).Sub("c19")
@@ -834,6 +834,12 @@ func checkC19(c *Ctx) {
 			add(scn.Fault{Kind: "garbage", K: k, Class: "choice"})
 			add(scn.Fault{Kind: "garbage", K: k, Class: "prefix"})
 			add(scn.Fault{Kind: "garbage", K: k, Class: "empty-container"})
+			add(scn.Fault{Kind: "garbage", K: k, Class: []string{"empty-value", "short-value", "short-value2"}[(k+i)%3]})
+			if c.Tier == "thorough" {
+				add(scn.Fault{Kind: "garbage", K: k, Class: "empty-value"})
+				add(scn.Fault{Kind: "garbage", K: k, Class: "short-value"})
+				add(scn.Fault{Kind: "garbage", K: k, Class: "short-value2"})
+			}
 			add(scn.Fault{Kind: "garbage", K: k, Class: fmt.Sprint("inner-len:", []int{1, 2, 7, 40, 100}[(k+i)%5])})
 			add(scn.Fault{Kind: "garbage", K: k, Class: fmt.Sprint("long:", []int{2048, 4096, 2047, 2049, 6144, 65535, 131070}[(k+i)%7])})
 			if c.Tier == "thorough" {
